@@ -69,6 +69,7 @@ static int g_steady=0;   /* 1: stationary noise after a quiet 1.5 s lead-in (ins
 static void make_stream(vc_rng *r,cstream *s,int want_ms){ int err; static const int mfs[3][5]={{2,3,4,5,3},{2,3,3,3,2},{0,1,2,3,3}}; int mode=VK_MODE_SILK+(int)vc_below(r,3); if(g_steady) mode=VK_MODE_CELT;   /* the stationary stimulus is for the CELT noise-floor tracker only: SILK's comfort noise legitimately continues stationary noise at its level */ int eFs=vc_chance(r,2,3)?48000:VC_PICK(r,vk_rates); int ch=1+vc_below(r,2); int fidx=mfs[mode-VK_MODE_SILK][vc_below(r,5)];
   /* one stream in three changes its configuration while running (forced channels, audio bandwidth, coding mode): transitions, redundancy frames and LBRR across a change are then inside the loss windows */
   int sw=!g_steady&&vc_chance(r,1,3); if(sw) fidx=2+(int)vc_below(r,2); int mixed=0, next_sw=sw?(int)vc_range(r,8,40):1<<30;
+  int gate=!g_steady&&vc_chance(r,1,2), gate_open=1, gate_left=(int)(vc_range(r,600,1500)*(double)eFs/1000.0/vk_frame_samples(eFs,fidx))+1; if(gate) vc_count("gated_streams",1);
   OpusEncoder *e=opus_encoder_create(eFs,ch,OPUS_APPLICATION_AUDIO,&err); opus_encoder_ctl(e,VK_SET_FORCE_MODE_REQUEST,mode); int bw= mode==VK_MODE_SILK?OPUS_BANDWIDTH_NARROWBAND+(int)vc_below(r,3): mode==VK_MODE_HYBRID?OPUS_BANDWIDTH_SUPERWIDEBAND+(int)vc_below(r,2):OPUS_AUTO; opus_encoder_ctl(e,OPUS_SET_BANDWIDTH(bw));
   opus_encoder_ctl(e,OPUS_SET_BITRATE(vc_range(r,16000,64000)*ch)); int fec=(mode!=VK_MODE_CELT||sw)&&vc_chance(r,3,4); if(fec){ opus_encoder_ctl(e,OPUS_SET_INBAND_FEC(1)); opus_encoder_ctl(e,OPUS_SET_PACKET_LOSS_PERC(vc_range(r,15,40))); }
   vc_siggen g; vs_init(&g,g_steady?VS_BANDNOISE:VS_SPEECHLIKE,eFs,ch,(float)(0.3+0.5*vc_unit(r)),vc_next(r)); int efs=vk_frame_samples(eFs,fidx); static float in[5760*2]; unsigned char buf[1500]; int n=(int)(want_ms/(efs*1000.0/eFs)); if(n>MAXP) n=MAXP; s->n=0;
@@ -78,7 +79,9 @@ static void make_stream(vc_rng *r,cstream *s,int want_ms){ int err; static const
       if(what==0&&ch==2){ static const int fcs[3]={1,2,OPUS_AUTO}; opus_encoder_ctl(e,OPUS_SET_FORCE_CHANNELS(fcs[vc_below(r,3)])); }
       else if(what==1||(what==0&&ch==1)){ int b= mode==VK_MODE_SILK?OPUS_BANDWIDTH_NARROWBAND+(int)vc_below(r,3): mode==VK_MODE_HYBRID?OPUS_BANDWIDTH_SUPERWIDEBAND+(int)vc_below(r,2):OPUS_AUTO; opus_encoder_ctl(e,OPUS_SET_BANDWIDTH(b)); }
       else { mode=VK_MODE_SILK+(int)vc_below(r,3); mixed=1; opus_encoder_ctl(e,VK_SET_FORCE_MODE_REQUEST,mode); int b= mode==VK_MODE_SILK?OPUS_BANDWIDTH_NARROWBAND+(int)vc_below(r,3): mode==VK_MODE_HYBRID?OPUS_BANDWIDTH_SUPERWIDEBAND+(int)vc_below(r,2):OPUS_AUTO; opus_encoder_ctl(e,OPUS_SET_BANDWIDTH(b)); } }
-    vs_fill(&g,in,efs); if(g_steady&&(long long)k*efs<(long long)eFs*3/2) for(int q=0;q<efs*ch;q++) in[q]*=0.002f; g_pkt=s->n; int len=opus_encode_float(e,in,efs,buf,1500); if(len<=0) break; s->pkt[s->n]=vc_exact_copy(buf,len); s->len[s->n]=len; opus_encoder_ctl(e,OPUS_GET_FINAL_RANGE(&s->rng[s->n])); s->lbrr[s->n]=opus_packet_has_lbrr(buf,len)>0; s->n++; }
+    vs_fill(&g,in,efs); if(g_steady&&(long long)k*efs<(long long)eFs*3/2) for(int q=0;q<efs*ch;q++) in[q]*=0.002f;
+    /* gated streams: loud segments end abruptly (-48 dB from one packet to the next), so that a loss window can hide a large fall of the coded gains */
+    if(gate){ if(--gate_left<=0){ gate_open=!gate_open; double ms=gate_open?vc_range(r,300,1500):vc_range(r,150,700); gate_left=(int)(ms*eFs/1000.0/efs)+1; } if(!gate_open) for(int q=0;q<efs*ch;q++) in[q]*=0.004f; } g_pkt=s->n; int len=opus_encode_float(e,in,efs,buf,1500); if(len<=0) break; s->pkt[s->n]=vc_exact_copy(buf,len); s->len[s->n]=len; opus_encoder_ctl(e,OPUS_GET_FINAL_RANGE(&s->rng[s->n])); s->lbrr[s->n]=opus_packet_has_lbrr(buf,len)>0; s->n++; }
   g_phase=0; opus_encoder_destroy(e); s->Fs=vc_chance(r,2,3)?eFs:VC_PICK(r,vk_rates); s->ch=vc_chance(r,3,4)?ch:1+(int)vc_below(r,2); s->fs=(int)((long long)efs*s->Fs/eFs); s->mode=mixed?0:mode; s->fidx=fidx; if(sw) vc_count("streams_with_configuration_changes",1);
   /* loss-free twin */
   s->twin=(float*)malloc(sizeof(float)*(size_t)s->n*s->fs*s->ch); OpusDecoder *d=opus_decoder_create(s->Fs,s->ch,&err); g_mid=NULL; for(int k=0;k<s->n;k++){ int rc=opus_decode_float(d,s->pkt[k],s->len[k],s->twin+(size_t)k*s->fs*s->ch,s->fs,0); if(rc!=s->fs){ fprintf(stderr,"twin decode %d\n",rc); exit(3); } } g_phase=0; g_mid=NULL; opus_decoder_destroy(d);
@@ -88,11 +91,12 @@ static void make_stream(vc_rng *r,cstream *s,int want_ms){ int err; static const
     opus_decoder_destroy(d16); opus_decoder_destroy(d24); } }
 static void free_stream(cstream *s){ for(int i=0;i<s->n;i++) free(s->pkt[i]); free(s->twin); free(s->twin16); free(s->twin24); }
 
-typedef struct { double blk[25]; double pk[25]; int nb; double acc; double accpk; int accn; int blkn; } recent_t;   /* last 500 ms of normally decoded audio in 20 ms blocks */
-static void recent_reset(recent_t *q,int Fs){ memset(q,0,sizeof *q); q->blkn=Fs/50; }
-static void recent_push(recent_t *q,const float *x,int n,int ch){ for(int i=0;i<n;i++){ for(int c=0;c<ch;c++){ double v=x[i*ch+c]; q->acc+=v*v; if(fabs(v)>q->accpk) q->accpk=fabs(v); } if(++q->accn==q->blkn){ if(q->nb<25) q->nb++; memmove(q->blk+1,q->blk,sizeof(double)*24); memmove(q->pk+1,q->pk,sizeof(double)*24); q->blk[0]=sqrt(q->acc/(q->blkn*ch)); q->pk[0]=q->accpk; q->acc=0; q->accpk=0; q->accn=0; } } }
-static double recent_level(const recent_t *q){ double m=0; for(int i=0;i<q->nb;i++) if(q->blk[i]>m) m=q->blk[i]; return m; }
-static double recent_peak(const recent_t *q){ double m=0; for(int i=0;i<q->nb;i++) if(q->pk[i]>m) m=q->pk[i]; return m; }
+typedef struct { double blk[25]; double pk[25]; int nb; double acc; double accpk; int accn; int blkn; int chn; } recent_t;   /* last 500 ms of normally decoded audio in 20 ms blocks */
+static void recent_reset(recent_t *q,int Fs){ memset(q,0,sizeof *q); q->blkn=Fs/50; q->chn=1; }
+static void recent_push(recent_t *q,const float *x,int n,int ch){ q->chn=ch; for(int i=0;i<n;i++){ for(int c=0;c<ch;c++){ double v=x[i*ch+c]; q->acc+=v*v; if(fabs(v)>q->accpk) q->accpk=fabs(v); } if(++q->accn==q->blkn){ if(q->nb<25) q->nb++; memmove(q->blk+1,q->blk,sizeof(double)*24); memmove(q->pk+1,q->pk,sizeof(double)*24); q->blk[0]=sqrt(q->acc/(q->blkn*ch)); q->pk[0]=q->accpk; q->acc=0; q->accpk=0; q->accn=0; } } }
+/* (the block still being filled counts too: with 2.5-10 ms packets the audio decoded last would otherwise be missing from the "recently decoded level" for up to 20 ms) */
+static double recent_level(const recent_t *q){ double m=0; for(int i=0;i<q->nb;i++) if(q->blk[i]>m) m=q->blk[i]; if(q->accn*8>=q->blkn){ double p=sqrt(q->acc/((double)q->blkn*q->chn)); if(p>m) m=p; } return m; }
+static double recent_peak(const recent_t *q){ double m=0; for(int i=0;i<q->nb;i++) if(q->pk[i]>m) m=q->pk[i]; if(q->accpk>m) m=q->accpk; return m; }
 
 /* concealed audio is collected across consecutive calls into 20 ms blocks (the same block length as the reference level), so that
    2.5 ms pieces are not compared with 20 ms averages; lossms = length of the current continuous loss before this buffer */
@@ -187,7 +191,7 @@ static int decode_pattern_impl(const cstream *s,OpusDecoder *d,OpusDecoder *clon
      closed-loop encoder only keeps its own synthesis on track); the aggregate SNR is reported */
   if(rd&&relblk){ vc_count("recovery_blocks_compared_with_frozen_build",relblk); vc_count("recovery_patterns_compared_with_frozen_build",1);
     if(relbad){ vc_viol("recovery:worse-than-frozen-build","after the loss %ld of %ld 5 ms blocks of received packets are more than %.0f dB further from the loss-free decoder's output than the frozen build's decoder is under the same calls (and less than %.0f dB below the block's level); first: packet %d, %d packets after the last loss: distance %.1f dB re the block's level, frozen build %.1f dB (%s)",relbad,relblk,C09_REL_DB,C09_REL_FLOOR_DB,relfirst,relfirst_after,10*log10(relw_t/(relw_s+1e-20)),10*log10((relw_r+1e-20)/(relw_s+1e-20)),ctx); return 1; } }
-  if(rn>=Fs/4&&sig>1e-6&&rblk>=5){ double snr=10*log10(sig/(noi+1e-20)); vc_min("recovery_snr_db_1s_after_loss",snr); vc_max("recovery_fraction_of_blocks_not_converged",(double)rbad/rblk); if(rbad>C09_RECOVER_BADFRAC*rblk){ vc_viol("recovery:not-converged","from 1 s after the last loss %ld of %ld audible 20 ms blocks are still more than %.0f dB (SNR) away from the loss-free decoder's output (aggregate SNR %.1f dB) (%s)",rbad,rblk,C09_RECOVER_DB,snr,ctx); return 1; } vc_count("recoveries_checked",1); if(noi==0) vc_count("recoveries_bit_exact",1); }
+  if(rn>=Fs/4&&sig>1e-6&&rblk>=5){ double snr=10*log10(sig/(noi+1e-20)); vc_min("recovery_snr_db_1s_after_loss",snr); vc_max("recovery_fraction_of_blocks_not_converged",(double)rbad/rblk); if(rbad>C09_RECOVER_BADFRAC*rblk&&rbad>=5 /* gated stimuli leave few audible blocks: a fraction of fewer than five blocks is not a measurement */){ vc_viol("recovery:not-converged","from 1 s after the last loss %ld of %ld audible 20 ms blocks are still more than %.0f dB (SNR) away from the loss-free decoder's output (aggregate SNR %.1f dB) (%s)",rbad,rblk,C09_RECOVER_DB,snr,ctx); return 1; } vc_count("recoveries_checked",1); if(noi==0) vc_count("recoveries_bit_exact",1); }
   return 0; }
 
 static int decode_pattern(const cstream *s,OpusDecoder *d,OpusDecoder *clone,const unsigned char *lost,int shape,const char *ctx,double *fec_err,double *plc_err,long *fec_events){
@@ -203,7 +207,12 @@ static int decode_pattern(const cstream *s,OpusDecoder *d,OpusDecoder *clone,con
 
 static void mode_window(void){
   vc_rng r; vc_case_rng(&r,9); int err; int K=(int)vc_argl("k",8); cstream s; make_stream(&r,&s,3400); double Dms0=s.fs*1000.0/s.Fs; int pos_min=(int)(500/Dms0)+1, pos_max=s.n-K-(int)(1500/Dms0)-2; if(pos_max<pos_min){ vc_count("streams_too_short",1); free_stream(&s); return; }
-  OpusDecoder *d=opus_decoder_create(s.Fs,s.ch,&err); OpusDecoder *clone=(OpusDecoder*)malloc(opus_decoder_get_size(s.ch)); int pos=vc_range(&r,pos_min,pos_max); char ctx[200]; static unsigned char lost[MAXP]; double fe=0,pe=0; long fev=0;
+  OpusDecoder *d=opus_decoder_create(s.Fs,s.ch,&err); OpusDecoder *clone=(OpusDecoder*)malloc(opus_decoder_get_size(s.ch)); int pos=vc_range(&r,pos_min,pos_max);
+  /* every second stream: the window sits on the end of a loud segment (the level falls by more than 24 dB within three packets), so that the lost span hides a large drop
+     of the coded gains and concealment extrapolates the loud audio into what follows */
+  if(vc_chance(&r,1,2)){ int cand[64], nc=0; for(int i=pos_min+1;i+3<pos_max+K&&i+3<s.n&&nc<64;i++){ double e0=0,e1=0; const float *a=s.twin+(size_t)(i-1)*s.fs*s.ch, *b=s.twin+(size_t)(i+2)*s.fs*s.ch; for(int k=0;k<s.fs*s.ch;k++){ e0+=(double)a[k]*a[k]; e1+=(double)b[k]*b[k]; } if(e0>1e-4*s.fs*s.ch&&e1<e0/250) cand[nc++]=i; }
+    if(nc){ int c0=cand[vc_below(&r,nc)]; int p2=c0-1-(int)vc_below(&r,K>3?K/2:1); if(p2<pos_min) p2=pos_min; if(p2>pos_max) p2=pos_max; pos=p2; vc_count("windows_on_the_end_of_a_loud_segment",1); } }
+  char ctx[200]; static unsigned char lost[MAXP]; double fe=0,pe=0; long fev=0;
   fec_better=0; lbrr_sub=0; lbrr_silent=0;
   for(unsigned pat=0;pat<(1u<<K);pat++){ memset(lost,0,sizeof lost); for(int b=0;b<K;b++) if(pat&(1u<<b)) lost[pos+b]=1; int shape=(pat*2654435761u>>13)&3; { unsigned a=(pat*40503u>>5)&7; g_api= a==6?1: a==7?2:0; } snprintf(ctx,sizeof ctx,"mode %d frame %.1f ms Fs %d ch %d window at %d pattern %#x shape %d api %d",s.mode,s.fs*1000.0/s.Fs,s.Fs,s.ch,pos,pat,shape,g_api);
     if(decode_pattern(&s,d,clone,lost,shape,ctx,&fe,&pe,&fev)){ g_api=0; goto out; } g_api=0; vc_count("patterns",1); }
